@@ -124,6 +124,8 @@ class RuntimeEffects:
         for s in stmts:
             if isinstance(s, ast.Expr) and isinstance(s.value, ast.Constant):
                 continue
+            if isinstance(s, ast.Assert):
+                continue
             if isinstance(s, ast.Return):
                 # calls inside the return expression take effect first
                 self._calls(clsq, s.value, eff, stack, env, depth)
